@@ -63,6 +63,7 @@ RECURSIVE SetAsSeq(_)
 SetAsSeq(S) == IF S = {} THEN <<>> ELSE LET x == CHOOSE y \in S : TRUE IN <<x>> \o SetAsSeq(S \ {x})
 
 MaxFails == 12
+MaxKeys == 24
 NoteNames == {"untrimmed_skipped", "untrimmed_compared", "def", "reads", "work", "purge_exact",
               "reindex", "recalc_same", "noninterference", "args"}
 \* TRACE_DEBUG=1 lists unchecked comparisons among the failures (diagnosis only)
@@ -199,12 +200,23 @@ RecalcSame(T, e, j, pre, post) ==
                      /\ ~NameSame(pre[i].ind, post[i].ind, T.ind[n2].name)} }
        \cup {<<"ok", j, "recalc_same", 0>>}
 
-\* state predicates evaluated on every observed state (C09 gaps, C10 structure)
+\* state predicates evaluated on every observed state (C09 gaps, C10 structure), and: a candle
+\* of one manager carries only the readings of the indicators registered on that manager --
+\* candles are not shared between timeframes (C19, C13, C08)
 StateFindings(T, ns, j, post) ==
   { <<r[1], j, r[2], r[3]>> :
       r \in UNION { LET c == T.ind[n]
                     IN { <<TopCheck(c, post, i), c.name, i>> : i \in 1..Len(post) }
                   : n \in {n \in ns : T.ind[n].mg = j} } }
+  \cup (IF Len(T.ind) = 0 THEN {}
+        ELSE LET tops == {T.ind[n].name : n \in {n \in ns : T.ind[n].mg = j}}
+                 owned == NamesOn(T, ns, j)
+             IN { <<"foreign_key", j, post[pr[1]].ind.k[pr[2]], pr[1]>> :
+                     pr \in {pr \in (1..Len(post)) \X (1..MaxKeys) :
+                               pr[2] <= Len(post[pr[1]].ind.k) /\ post[pr[1]].ind.k[pr[2]] \notin tops} }
+                \cup { <<"foreign_key", j, post[pr[1]].sub.k[pr[2]], pr[1]>> :
+                     pr \in {pr \in (1..Len(post)) \X (1..MaxKeys) :
+                               pr[2] <= Len(post[pr[1]].sub.k) /\ post[pr[1]].sub.k[pr[2]] \notin owned} })
 
 \* --------------------------------------------------------------------------
 \* twins: a second observation of the same configuration obtained by calling the library
@@ -321,7 +333,8 @@ GeoVerdict(post, q) ==
   LET g == Geometry(post[q.j][q.i + 1])
       num(f, x) == LET v == DictField(q.r, f) IN v.t = "q" /\ v.x = 1 /\ <<v.n, v.d>> = x
       boo(f, x) == LET v == DictField(q.r, f) IN v.t = "b" /\ v.b = x
-  IN IF q.r.t = "d" /\ num("body", g.body) /\ num("upper", g.upper) /\ num("lower", g.lower)
+  IN IF post[q.j][q.i + 1].x = 0 THEN "unchecked"      \* candle values not exactly recoverable
+     ELSE IF q.r.t = "d" /\ num("body", g.body) /\ num("upper", g.upper) /\ num("lower", g.lower)
         /\ num("range", g.range) /\ boo("pos", g.pos) /\ boo("neg", g.neg)
      THEN "ok" ELSE "geo_shape"
 
